@@ -62,6 +62,17 @@ def rows_for_dates(case):
     return rows
 
 
+def _diag_range(case, reject):
+    """Was the range reading lost to the depth limit of the search (max_stack_depth=10)?  Re-parse exhaustively."""
+    if case.get("label") != "named-month":
+        return {}
+    ts = e2e.ts_of(case["ts"])
+    v0, _ = e2e.parse_val(case["text"], ts, max_stack_depth=0)
+    v1, _ = e2e.parse_val(case["text"].split(" - ")[0].split(" to ")[0].split(" bis ")[0], ts)
+    ok = v0.get("k") == "I" and v0.get("f") == v1
+    return {"cause": "pruned-by-depth-limit" if ok else "wrong-with-exhaustive-search"}
+
+
 STAGES = {
     "rule-rows-clock": (rows_for_pair, "RulesTrace"),
     "rule-rows-dates": (rows_for_dates, "RulesTrace"),
@@ -164,7 +175,13 @@ def run(ctx):
             for ts in (ts0, (2018, 8, 1, 9, 0)):
                 cases.append({"text": "%d.%d. - %d.%d.%d" % (d1, m1, d2, m2, y), "D1": G.day("doy", d1, m1), "D2": G.day("date", d2, m2, y), "ts": ts,
                               "label": "doy-date", "form": "join: - "})
-    core.run_stage(ctx, "e2e-date-ranges", cases, e2e.obs_drange, "DenoteTrace")
+    # dates written with a month name, same notation on both ends, every joiner
+    for (a, b) in [((5, 3, 2021), (7, 3, 2021)), ((30, 4, 2021), (2, 5, 2021)), ((28, 12, 2019), (3, 1, 2021)), ((7, 3, 2021), (5, 3, 2021))]:
+        fa, fb = G.date_forms(*a, numeric=False), G.date_forms(*b, numeric=False)
+        for (la, ta, Da), (lb, tb, Db) in zip(fa, fb):
+            for jl, text in (("join: - ", ta + " - " + tb), ("join:to", ta + " to " + tb), ("join:bis", ta + " bis " + tb)):
+                cases.append({"text": text, "D1": Da, "D2": Db, "ts": ts0, "label": "named-month", "form": jl})
+    core.run_stage(ctx, "e2e-date-ranges", cases, e2e.obs_drange, "DenoteTrace", diagnose=_diag_range)
 
     # ---- before / after ---------------------------------------------------------------------------
     cases = []
